@@ -121,6 +121,17 @@ def gen(seed, tier, want=None):
                     for i in range(imax + 1, 34):
                         for j in range(0, jmax + 5, 2):
                             scen.append(Scenario(name, disp, setup, acts, [P] * i + [Q] * j + [P] * 70 + [R] * 70 + [Q] * 70))
+        if n == 4:
+            # one delivery paused three times, a complete call between the pauses: D^i Q* D^j R* D^k S* D*
+            dels = [a for a in range(4) if acts[a][0] == 1]
+            for P in dels:
+                others = [a for a in range(4) if a != P]
+                kmax = 5 if tier == 'quick' else 8
+                for Q, R, S in itertools.permutations(others):
+                    for i in range(0, kmax + 1):
+                        for j in range(0, kmax + 1):
+                            for k in range(0, kmax + 1):
+                                scen.append(Scenario(name, disp, setup, acts, [P] * i + [Q] * 70 + [P] * j + [R] * 70 + [P] * k + [S] * 70 + [P] * 70))
         for _ in range(per * 2):
             ln = rnd.randint(5, 70)
             # biased random: runs of the same activity of random length
